@@ -44,8 +44,20 @@ def afterGroup (P : Params) (S : LSchema) (fuel : Nat) (par : Option Nat) (fc : 
     | none => none
     | some r3 => pLoop P S true fuel par fc r3 (acc ++ g)
 
-theorem untagged (o : POpts) (S : LSchema) (n : DNode) (h : o.tagAll = false ∧ o.tagImpl = false) : wdTagged o S n = false := by
-  simp [wdTagged, h.1, h.2]
+theorem untagged (o : POpts) (S : LSchema) (n : DNode) (h : (o.tagAll = false ∧ o.tagImpl = false) ∨ o.wdAnnot = false) :
+    wdTagged o S n = false := by
+  rcases h with h | h
+  · simp [wdTagged, h.1, h.2]
+  · simp [wdTagged, h]
+
+mutual
+theorem viewNode_id (o : POpts) (S : LSchema) (h : ∀ n, wdTagged o S n = false) : ∀ n : DNode, viewNode o S n = n
+  | .term sid f m v => by simp [viewNode, h]
+  | .inner sid f m kids => by simp only [viewNode, viewL_id o S h kids]
+theorem viewL_id (o : POpts) (S : LSchema) (h : ∀ n, wdTagged o S n = false) : ∀ l : List DNode, l.map (viewNode o S) = l
+  | [] => rfl
+  | n :: l => by simp only [List.map_cons, viewNode_id o S h n, viewL_id o S h l]
+end
 
 theorem buc_wNum (k n : Nat) (X : List Op) (hk : 0 < k) : bytesUntilClose 0 (wNum k n :: X) ≠ 0 := by
   simp only [wNum, bytesUntilClose, length_leBytes]; omega
@@ -109,26 +121,28 @@ theorem nodeHead_at (P : Params) (hP : P.Ok) (d : Nat) (S : LSchema) (hname : S.
     exact ⟨r3, by simp only [pNodeHead, c1, e1, ↓reduceIte, e3], a3⟩
 
 section walk
-variable (P : Params) (hP : P.Ok) (o : POpts) (S : LSchema) (hopt : o.tagAll = false ∧ o.tagImpl = false)
+variable (P : Params) (hP : P.Ok) (o : POpts) (S : LSchema) (hwd : ∀ w, S.wd = some w → unpackRev (packRev w) = w)
   (hname : S.modName ≠ []) (hrev : unpackRev (packRev S.rev) = S.rev)
-include hP hopt hname hrev
+include hP hwd hname hrev
 
 mutual
 theorem inst_rt : ∀ (n : DNode) (ops K : List Op) (d : Nat) (r : R) (fuel : Nat), instOps o S n = some ops → WfNode S n →
-    At P d (ops ++ K) r → costN n ≤ fuel → ∃ r', pInst P S true fuel n.sid r = some (n, r') ∧ At P d K r'
+    At P d (ops ++ K) r → costN n ≤ fuel → ∃ r', pInst P S true fuel n.sid r = some (viewNode o S n, r') ∧ At P d K r'
   | .term sid f m v, ops, K, d, r, fuel, ho, hwf, hat, hfuel => by
     simp only [instOps] at ho
     obtain ⟨x, y, hx, hy, rfl⟩ := cat_eq_some ho
     simp only [WfNode] at hwf
     rw [List.append_assoc] at hat
-    obtain ⟨r1, e1, a1, hm⟩ := header_at P hP d o S _ x hx (untagged o S _ hopt) _ r hat
+    obtain ⟨r1, e1, a1, hm⟩ := header_at P hP d o S hwd _ x hx _ r hat
     obtain ⟨r2, e2, a2⟩ := value_at P hP d (S.ty sid) v y hy hwf.2 K r1 a1
     simp only [DNode.metas] at hm
     subst hm
     cases fuel with
     | zero => simp [costN] at hfuel
     | succ fuel =>
-      exact ⟨r2, by simp only [DNode.sid, pInst, e1, hwf.1, ↓reduceIte, e2, DNode.flags], a2⟩
+      refine ⟨r2, ?_, a2⟩
+      simp only [DNode.sid, pInst, e1, hwf.1, ↓reduceIte, e2, DNode.flags, viewNode]
+      split <;> rfl
   | .inner sid f m kids, ops, K, d, r, fuel, ho, hwf, hat, hfuel => by
     simp only [instOps] at ho
     obtain ⟨x, y, hx, hy, rfl⟩ := cat_eq_some ho
@@ -138,7 +152,7 @@ theorem inst_rt : ∀ (n : DNode) (ops K : List Op) (d : Nat) (r : R) (fuel : Na
     subst hy1 hz2
     simp only [WfNode] at hwf
     simp only [List.append_assoc, List.cons_append, List.nil_append] at hat
-    obtain ⟨r1, e1, a1, hm⟩ := header_at P hP d o S _ x hx (untagged o S _ hopt) _ r hat
+    obtain ⟨r1, e1, a1, hm⟩ := header_at P hP d o S hwd _ x hx _ r hat
     simp only [DNode.metas] at hm
     subst hm
     have a2 := at_start P hP d _ r1 a1
@@ -152,14 +166,16 @@ theorem inst_rt : ∀ (n : DNode) (ops K : List Op) (d : Nat) (r : R) (fuel : Na
         obtain ⟨r3, e3, a3⟩ := sibs_none kids (some sid) z1 K d (rstart P r1) hz1 hwf.2.2 a2 fuel [] (by omega)
         obtain ⟨r4, e4, a4⟩ := at_stop P d K r3 a3
         refine ⟨r4, ?_, a4⟩
-        simp only [DNode.sid, pInst, e1, hwf.1, Bool.false_eq_true, ↓reduceIte, hwf.2.1, pSibs, e3, e4, List.nil_append, DNode.flags]
+        have hnt : wdTagged o S (.inner sid f [] []) = false := by simp [wdTagged, DNode.isTerm]
+        simp only [DNode.sid, pInst, e1, hnt, hwf.1, Bool.false_eq_true, ↓reduceIte, hwf.2.1, pSibs, e3, e4, List.nil_append, DNode.flags,
+          viewNode]
 termination_by n => (sizeOf n, 0)
 decreasing_by all_goals (simp_wf; first | (apply Prod.Lex.left; omega) | (apply Prod.Lex.left; simp; omega) | (apply Prod.Lex.right; omega) | (apply Prod.Lex.right; simp))
 
 theorem sibs_none : ∀ (nodes : List DNode) (par : Option Nat) (ops K : List Op) (d : Nat) (r : R),
     sibOps o S par (S.frame par) none nodes = some ops → WfForest S nodes → At P (d + 1) (ops ++ .stop :: K) r →
     ∀ (fuel : Nat) (acc : List DNode), costL nodes ≤ fuel →
-      ∃ r', pLoop P S true fuel par (S.frame par) r acc = some (acc ++ nodes, r') ∧ At P (d + 1) (.stop :: K) r'
+      ∃ r', pLoop P S true fuel par (S.frame par) r acc = some (acc ++ nodes.map (viewNode o S), r') ∧ At P (d + 1) (.stop :: K) r'
   | [], par, ops, K, d, r, ho, _, hat, fuel, acc, hfuel => by
     simp only [sibOps, closeOps, Option.some.injEq] at ho
     subst ho
@@ -214,7 +230,7 @@ theorem sibs_none : ∀ (nodes : List DNode) (par : Option Nat) (ops K : List Op
           | zero => omega
           | succ fuel =>
             obtain ⟨r3, e3, a3⟩ := inst_rt n z1 _ (d + 2) (rstart P r1) fuel hz1 hwf.1 a2 (by omega)
-            obtain ⟨r4, e4, a4⟩ := sibs_some rest par n.sid z2 K d r3 hz2 hwf.2 a3 fuel (fuel + 2) acc [n] (by omega) (by omega)
+            obtain ⟨r4, e4, a4⟩ := sibs_some rest par n.sid z2 K d r3 hz2 hwf.2 a3 fuel (fuel + 2) acc [viewNode o S n] (by omega) (by omega)
             refine ⟨r4, ?_, a4⟩
             rw [pLoop]
             simp only [hw, ↓reduceIte, pNode, e1, hmulti]
@@ -222,7 +238,7 @@ theorem sibs_none : ∀ (nodes : List DNode) (par : Option Nat) (ops K : List Op
             simp only [hw2, ↓reduceIte, e3, List.nil_append]
             simp only [afterGroup] at e4
             revert e4
-            cases pGroup P S true fuel n.sid r3 [n] with
+            cases pGroup P S true fuel n.sid r3 [viewNode o S n] with
             | none => simp
             | some gr =>
               obtain ⟨g, r5⟩ := gr
@@ -234,18 +250,18 @@ theorem sibs_none : ∀ (nodes : List DNode) (par : Option Nat) (ops K : List Op
           obtain ⟨z1, z2, hz1, hz2, rfl⟩ := cat_eq_some hy
           rw [List.append_assoc] at a1
           obtain ⟨r3, e3, a3⟩ := inst_rt n z1 _ (d + 1) r1 fuel hz1 hwf.1 a1 (by omega)
-          obtain ⟨r4, e4, a4⟩ := sibs_none rest par z2 K d r3 hz2 hwf.2 a3 (fuel + 1) (acc ++ [n]) (by omega)
+          obtain ⟨r4, e4, a4⟩ := sibs_none rest par z2 K d r3 hz2 hwf.2 a3 (fuel + 1) (acc ++ [viewNode o S n]) (by omega)
           refine ⟨r4, ?_, a4⟩
           rw [pLoop]
           simp only [hw, ↓reduceIte, pNode, e1, hmulti, Bool.false_eq_true, e3, e4, List.append_assoc, List.cons_append,
-            List.nil_append]
+            List.nil_append, List.map_cons]
 termination_by nodes => (sizeOf nodes, 0)
 decreasing_by all_goals (simp_wf; first | (apply Prod.Lex.left; omega) | (apply Prod.Lex.left; simp; omega) | (apply Prod.Lex.right; omega) | (apply Prod.Lex.right; simp))
 
 theorem sibs_some : ∀ (nodes : List DNode) (par : Option Nat) (s : Nat) (ops K : List Op) (d : Nat) (r : R),
     sibOps o S par (S.frame par) (some s) nodes = some ops → WfForest S nodes → At P (d + 2) (ops ++ .stop :: K) r →
     ∀ (fg fl : Nat) (acc accG : List DNode), costL nodes ≤ fg → costL nodes ≤ fl →
-      ∃ r', afterGroup P S fl par (S.frame par) acc (pGroup P S true fg s r accG) = some (acc ++ accG ++ nodes, r') ∧
+      ∃ r', afterGroup P S fl par (S.frame par) acc (pGroup P S true fg s r accG) = some (acc ++ accG ++ nodes.map (viewNode o S), r') ∧
         At P (d + 1) (.stop :: K) r'
   | [], par, s, ops, K, d, r, ho, _, hat, fg, fl, acc, accG, hfg, hfl => by
     simp only [sibOps, closeOps, Option.some.injEq] at ho
@@ -287,7 +303,7 @@ theorem sibs_some : ∀ (nodes : List DNode) (par : Option Nat) (s : Nat) (ops K
       | zero => omega
       | succ fg =>
         obtain ⟨r3, e3, a3⟩ := inst_rt n z1 _ (d + 2) r fg hz1 hwf.1 hat (by omega)
-        obtain ⟨r4, e4, a4⟩ := sibs_some rest par n.sid z2 K d r3 hz2 hwf.2 a3 fg fl acc (accG ++ [n]) (by omega) (by omega)
+        obtain ⟨r4, e4, a4⟩ := sibs_some rest par n.sid z2 K d r3 hz2 hwf.2 a3 fg fl acc (accG ++ [viewNode o S n]) (by omega) (by omega)
         refine ⟨r4, ?_, a4⟩
         rw [pGroup]
         simp only [hw, ↓reduceIte, e3]
